@@ -1,16 +1,27 @@
-"""Native replay for C14: a KeyboardInterrupt injected at a chosen line boundary of the calling thread.
+"""Native harness for C14: KeyboardInterrupt injected at chosen line boundaries of the calling thread.
 
-`sys.settrace` raises KeyboardInterrupt when the calling thread is about to execute the n-th occurrence of a
-given (labtech file, line).  First a recording run collects the line events inside run_tasks; then one run per
-distinct (file, line) injects the interrupt at its first occurrence (serial: every line; process backends: the
-lines of lab.py and runners/process.py executed by the caller).  Oracle: run_tasks raises KeyboardInterrupt
-(never another exception, never a normal return) and no task starts after the interrupt.
+BOUNDED (never counted as proved).  Two uses: replay of a refuted interrupt obligation, and -- in the thorough tier,
+or whenever part of the cone is undecided -- stand-in for the interrupt instants the verifier does not decide
+(inside TaskState methods and other callee bodies).
+
+`sys.settrace` raises KeyboardInterrupt when the calling thread is about to execute a given occurrence of a given
+(labtech file, line).  A recording run collects the line events inside run_tasks; then one run per point injects the
+interrupt there (serial: every line the caller executes in labtech; process backends: the lines of lab.py and
+runners/process.py).  A second interrupt can be injected at a later point of the same run.
+
+Oracle (from the property statement):
+  * run_tasks raises KeyboardInterrupt -- never another exception, never a normal return;
+  * no task is started after the first interrupt: no `Process.start()` by the calling thread and no entry into
+    run_or_load_task by the serial runner once the interrupt has been delivered;
+  * the cache is left consistent: in a fresh Lab on the same directory every task reported as cached loads the value
+    the reference evaluator predicts, and a full re-run returns the reference values for all tasks.
 """
 from __future__ import annotations
 
 import argparse
 import json
 import logging
+import multiprocessing.process
 import os
 import sys
 import tempfile
@@ -18,14 +29,20 @@ import threading
 import traceback
 
 
-def one_run(kind, inject=None, record=None, second=None):
+def scenario():
+    from replay.universe import A, K
+    d1, d2 = K('d1'), A('d2')
+    return [K('t1', (d1, d2)), A('t2', (d2,)), K('t3'), K('t4', (d1,))]
+
+
+def one_run(kind, inject=None, record=None, second=None, occurrence=1):
     import labtech
-    from replay.universe import A
+    import labtech.runners.serial as serial_mod
+    from replay.universe import closure, expected_value
     logging.getLogger('labtech').setLevel(logging.CRITICAL)
-    d1, d2 = A('d1'), A('d2')
-    tasks = [A('t1', (d1, d2)), A('t2', (d2,)), A('t3')]
+    tasks = scenario()
     root = os.path.dirname(labtech.__file__)
-    state = dict(fired=0, count={})
+    state = dict(fired=0, count={}, late_starts=[])
     main = threading.get_ident()
 
     def tracer(frame, event, arg):
@@ -37,8 +54,13 @@ def one_run(kind, inject=None, record=None, second=None):
             if record is not None:
                 record.append(key)
             n = state['count'][key] = state['count'].get(key, 0) + 1
-            if inject is not None and key == inject and n == 1 and state['fired'] == 0:
+            if inject is not None and key == inject and n == occurrence and state['fired'] == 0:
                 state['fired'] = 1
+                f = frame
+                while f is not None:      # is BaseCache.save (or a callee of it) executing on the interrupted thread?
+                    if f.f_code.co_name in ('save', 'save_result') and f.f_code.co_filename.endswith('cache.py'):
+                        state['in_save'] = True
+                    f = f.f_back
                 raise KeyboardInterrupt()
             if second is not None and state['fired'] == 1 and key == second and not state.get('second_done'):
                 state['second_done'] = True
@@ -46,9 +68,25 @@ def one_run(kind, inject=None, record=None, second=None):
                 raise KeyboardInterrupt()
         return tracer
 
+    orig_start = multiprocessing.process.BaseProcess.start
+    orig_rolt = serial_mod.run_or_load_task
+
+    def start_spy(self, *a, **k):
+        if state['fired'] and state.get('armed') and threading.get_ident() == main and 'SyncManager' not in type(self).__name__ \
+                and getattr(self, '_target', None) is not None and getattr(self._target, '__name__', '') == '_subprocess_target':
+            state['late_starts'].append(f'Process.start() for future {self._kwargs.get("future_id")}')
+        return orig_start(self, *a, **k)
+
+    def rolt_spy(*a, **k):
+        if state['fired'] and state.get('armed') and not k.get('use_cache', False):
+            state['late_starts'].append(f'serial run_or_load_task({k.get("task_name") or (a[1] if len(a) > 1 else "?")})')
+        return orig_rolt(*a, **k)
+
     with tempfile.TemporaryDirectory() as d:
         lab = labtech.Lab(storage=d, continue_on_failure=True, runner_backend=kind, max_workers=2)
         outcome = None
+        multiprocessing.process.BaseProcess.start = start_spy
+        serial_mod.run_or_load_task = rolt_spy
         sys.settrace(tracer)
         try:
             state['armed'] = True
@@ -62,28 +100,86 @@ def one_run(kind, inject=None, record=None, second=None):
         finally:
             state['armed'] = False
             sys.settrace(None)
-    return outcome, state['fired']
+            multiprocessing.process.BaseProcess.start = orig_start
+            serial_mod.run_or_load_task = orig_rolt
+        cache_problem = None
+        if inject is not None and state['fired'] == 1:
+            # single interrupt: whatever was running was allowed to finish and cache; the cache must be consistent
+            try:
+                lab2 = labtech.Lab(storage=d, continue_on_failure=True, runner_backend='serial')
+                allt = closure(tasks)
+                res = lab2.run_tasks(list(allt), disable_progress=True, disable_top=True)
+                for t in allt:
+                    if res.get(t) != expected_value(t):
+                        cache_problem = f'after the interrupted run, a fresh Lab returns {res.get(t)!r} for {t}, expected {expected_value(t)!r}'
+                        break
+            except BaseException as ex:   # noqa
+                cache_problem = f'after the interrupted run, a fresh Lab on the same directory raised {type(ex).__name__}: {ex}'[:300]
+    return outcome, state['fired'], state['late_starts'], (('[inside save] ' if state.get('in_save') else '') + cache_problem) if cache_problem else None
 
 
-def search(kind, limit=None):
+def verdict(kind, p, out, fired, late, cache_problem, second=None):
+    where = f'{p[0]}:{p[1]}' + (f' then a second one at {second[0]}:{second[1]}' if second else '')
+    if fired and out != 'KeyboardInterrupt':
+        return f'{kind}: KeyboardInterrupt injected at {where} -> run_tasks ended with `{out}` instead of KeyboardInterrupt'
+    if fired and late:
+        return f'{kind}: after the KeyboardInterrupt at {where} a task was still started: {late[0]}'
+    if fired and cache_problem:
+        return f'{kind}: KeyboardInterrupt at {where}: {cache_problem}'
+    return None
+
+
+def points_of(kind):
     rec = []
-    out, _ = one_run(kind, record=rec)
+    out, _, _, _ = one_run(kind, record=rec)
     if out != 'return':
-        return dict(reproduced=False, error=f'recording run did not return normally: {out}')
-    points = []
+        raise RuntimeError(f'recording run did not return normally: {out}')
+    points, counts = [], {}
     for k in rec:
+        counts[k] = counts.get(k, 0) + 1
         if k not in points:
             points.append(k)
     if kind != 'serial':
         points = [p for p in points if p[0] in ('lab.py', os.path.join('runners', 'process.py'))]
+    return points, counts
+
+
+def search(kind, tier='quick', limit=None):
+    points, counts = points_of(kind)
     tried = 0
+    known_sites = []
     for p in points[:limit]:
-        out, fired = one_run(kind, inject=p)
+        out, fired, late, cp = one_run(kind, inject=p)
         tried += 1
-        if fired and out != 'KeyboardInterrupt':
-            return dict(reproduced=True, level='api', backend=kind, point=list(p), tried=tried,
-                        summary=f'{kind}: KeyboardInterrupt injected at {p[0]}:{p[1]} -> run_tasks ended with `{out}` instead of KeyboardInterrupt')
-    return dict(reproduced=False, level='api', backend=kind, points=len(points), tried=tried)
+        if fired and out == 'KeyboardInterrupt' and not late and cp and cp.startswith('[inside save]'):
+            # the interrupt was delivered to the thread that is executing BaseCache.save (serial backend): the failed save
+            # leaves a partial entry -- the same defect as C12's F-save, reported separately and the search goes on
+            known_sites.append(f'{p[0]}:{p[1]}')
+            continue
+        why = verdict(kind, p, out, fired, late, cp)
+        if why:
+            return dict(reproduced=True, level='api', backend=kind, point=list(p), tried=tried, summary=why, known_sites=known_sites)
+    if tier != 'quick':
+        # later occurrences of the same line (loop iterations), and a second interrupt after the first
+        for p in points:
+            for occ in (2, 3):
+                if counts.get(p, 0) >= occ:
+                    out, fired, late, cp = one_run(kind, inject=p, occurrence=occ)
+                    tried += 1
+                    why = verdict(kind, p, out, fired, late, cp)
+                    if why:
+                        return dict(reproduced=True, level='api', backend=kind, point=list(p), occurrence=occ, tried=tried, summary=why + f' (occurrence {occ})')
+        step1 = max(1, len(points) // 12)
+        for i in range(0, len(points), step1):
+            later = points[i + 1:]
+            step2 = max(1, len(later) // 8)
+            for q in later[::step2]:
+                out, fired, late, cp = one_run(kind, inject=points[i], second=q)
+                tried += 1
+                if fired and out != 'KeyboardInterrupt':
+                    return dict(reproduced=True, level='api', backend=kind, point=list(points[i]), second=list(q), tried=tried,
+                                summary=verdict(kind, points[i], out, fired, [], None, second=q))
+    return dict(reproduced=False, level='api', backend=kind, points=len(points), tried=tried, known_sites=known_sites)
 
 
 def main():
@@ -91,17 +187,36 @@ def main():
     ap.add_argument('--obligation', default='')
     ap.add_argument('--repo', default='/repo')
     ap.add_argument('--backend', default='')
+    ap.add_argument('--prop', default='C14')
+    ap.add_argument('--tier', default='quick')
     a = ap.parse_args()
     res = dict(reproduced=False)
+    runs = []
+    known = []
     try:
-        kinds = [a.backend] if a.backend else (['fork', 'serial'] if 'ProcessRunner' in a.obligation or 'process' in a.obligation else ['serial', 'fork'])
+        if a.backend:
+            kinds = [a.backend]
+        elif a.obligation:
+            kinds = ['fork', 'serial'] if ('ProcessRunner' in a.obligation or 'process' in a.obligation) else ['serial', 'fork']
+        else:
+            kinds = ['serial', 'fork'] + (['spawn'] if a.tier != 'quick' else [])
         for kind in kinds:
-            res = search(kind)
+            res = search(kind, a.tier if not a.obligation else 'quick', limit=(40 if kind == 'spawn' else None))
+            runs.append(f'{kind}: {res.get("tried")} injected runs over {res.get("points", "?")} line boundaries')
+            if res.get('known_sites'):
+                known.append(dict(id=f'c14:interrupt-inside-save/{kind}',
+                                  summary=f'{kind} backend: a KeyboardInterrupt delivered while BaseCache.save runs on the calling thread (at {len(res["known_sites"])} line boundaries, '
+                                          f'e.g. {", ".join(res["known_sites"][:4])}) leaves an entry that is reported as cached but cannot be loaded'))
             if res.get('reproduced'):
                 break
     except Exception:
         res = dict(reproduced=False, error=traceback.format_exc()[-1500:])
-    print(json.dumps(res, default=str))
+    if a.obligation:
+        print(json.dumps(res, default=str))
+    else:
+        print(json.dumps([dict(name='c14:line-boundary-interrupt-injection', bounded=True,
+                               bound='; '.join(runs) + ('; first occurrence of each line' if a.tier == 'quick' else '; occurrences 1-3 of each line, sampled second interrupts'),
+                               violation=bool(res.get('reproduced')), witness=[res] if res.get('reproduced') else [], findings=known, error=res.get('error'))], default=str))
     return 1 if res.get('reproduced') else 0
 
 
